@@ -657,10 +657,10 @@ Proof.
   (* x1 = P - s, d1 = rnd x1 *)
   set (M1 := y * (1 + u53) * (1 + u53) * (1 + u53) + S').
   assert (X1 : Rabs (P - s) <= M1) by (apply Rabs_le; unfold M1; lra).
-  assert (D1 := rnd64_relabs (P - s) M1 X1). fold (jD d rate sdiff) in D1.
+  assert (D1 := rnd64_relabs (P - s) M1 X1). change (rnd64 (P - s)) with (jD d rate sdiff) in D1.
   set (d1 := jD d rate sdiff) in *.
   set (Ea := u53 * M1 + eta + y * ((1 + u53) * (1 + u53) * (1 + u53) - 1)).
-  assert (DE : Rabs (d1 - (y - s)) <= Ea) by (apply Rabs_le; unfold Ea, M1; lra).
+  assert (DE : Rabs (d1 - (y - s)) <= Ea) by (apply Rabs_le; unfold Ea; lra).
   assert (AE := Rle_trans _ _ _ (Rabs_triang_inv2 d1 (y - s)) DE). apply Rabs_le_inv in AE.
   assert (DM : Rabs d1 <= M1 * (1 + u53) + eta) by (apply Rabs_le; unfold M1 in *; lra).
   assert (A0 := Rabs_pos d1).
@@ -670,7 +670,7 @@ Proof.
   (* x2 = a - j, e = rnd x2 *)
   set (M2 := M1 * (1 + u53) + eta + j).
   assert (X2 : Rabs (a - j) <= M2) by (apply Rabs_le; unfold M2; lra).
-  assert (E := rnd64_relabs (a - j) M2 X2). fold a d1 in E. change (rnd64 (a - j)) with (jE j d rate sdiff) in E.
+  assert (E := rnd64_relabs (a - j) M2 X2). change (rnd64 (a - j)) with (jE j d rate sdiff) in E.
   set (e := jE j d rate sdiff) in *.
   (* x3 = e / 16, q = rnd x3 *)
   set (M3 := (M2 * (1 + u53) + eta) / 16).
@@ -683,7 +683,7 @@ Proof.
   assert (J := rnd64_relabs (j + q) M4 X4). change (rnd64 (j + q)) with (jitR j d rate sdiff) in J.
   set (J' := jitR j d rate sdiff) in *.
   (* crude numeric bounds *)
-  assert (M1B : M1 <= 4611686020574871600) by (unfold M1; lra).
+  assert (M1B : M1 <= 4611686020574880000) by (unfold M1; lra).
   split. { apply Rle_trans with (1 := X1). lra. }
   split. { apply Rle_trans with (1 := DM). lra. }
   split. { apply Rle_trans with (1 := X2). unfold M2. lra. }
@@ -693,19 +693,158 @@ Proof.
   - (* J' >= 0 *)
     assert (Nj : rnd64 (- j) = - j) by (rewrite rnd64_opp, Hjr; reflexivity).
     assert (Ee : - j <= e).
-    { rewrite <- Nj. unfold e, jE. fold d1 a. apply rnd64_mono. lra. }
+    { rewrite <- Nj. change e with (rnd64 (a - j)). apply rnd64_mono. lra. }
     assert (Qq : - j <= q).
-    { rewrite <- Nj. unfold q, jQ. fold e. apply rnd64_mono. lra. }
-    unfold J', jitR. fold q. apply r_nonneg. lra.
+    { rewrite <- Nj. change q with (rnd64 (e / 16)). apply rnd64_mono. lra. }
+    change J' with (rnd64 (j + q)). apply r_nonneg. lra.
   - (* J' <= 2^64 *)
-    rewrite <- rnd64_2p64. unfold J', jitR. fold q. apply rnd64_mono.
+    rewrite <- rnd64_2p64. change J' with (rnd64 (j + q)). apply rnd64_mono.
     destruct (Rle_or_lt a j) as [C|C].
     + assert (Ee : e <= 0).
-      { rewrite <- (rnd64_int 0) by lia. unfold e, jE. fold d1 a. apply rnd64_mono. lra. }
+      { rewrite <- (rnd64_int 0) by lia. change e with (rnd64 (a - j)). apply rnd64_mono. lra. }
       assert (Qq : q <= 0).
-      { rewrite <- (rnd64_int 0) by lia. unfold q, jQ. fold e. apply rnd64_mono. lra. }
+      { rewrite <- (rnd64_int 0) by lia. change q with (rnd64 (e / 16)). apply rnd64_mono. lra. }
       lra.
     + apply Rle_trans with M4. apply Rabs_le_inv in X4. lra. unfold M4, M3, M2. lra.
   - (* accuracy *)
     unfold jit_exact. fold y s ax. apply Rabs_le. unfold Ea, M4, M3, M2, M1 in *. lra.
 Qed.
+
+(* ---- link: signed int -> float, negation, comparison with 0 ---- *)
+Lemma Prim2B_zero : FP.Prim2B 0%float = B754_zero false.
+Proof.
+  assert (H := FP.B2SF_Prim2B 0%float). change (Prim2SF 0%float) with (S754_zero false) in H.
+  destruct (FP.Prim2B 0%float); simpl in H; try discriminate. now inversion H.
+Qed.
+
+Lemma opp_link f : fin f -> fin (- f)%float /\ FR (- f)%float = - FR f.
+Proof.
+  intros Hf. unfold fin, FR. rewrite FP.opp_equiv, is_finite_Bopp, B2R_Bopp. split. exact Hf. reflexivity.
+Qed.
+
+Lemma of_Z_link_signed n : (Z.abs n < 9007199254740992)%Z ->
+  fin (f64_of_Z n) /\ FR (f64_of_Z n) = IZR n.
+Proof.
+  intros Hn. destruct (Z.ltb_spec n 0) as [N|N].
+  - destruct (of_Z_link (- n)) as [F V]. { lia. } rewrite rnd64_int in V by lia.
+    assert (E : f64_of_Z n = (- f64_of_Z (- n))%float).
+    { unfold f64_of_Z. replace (n <? 0)%Z with true by lia. replace (- n <? 0)%Z with false by lia. reflexivity. }
+    rewrite E. destruct (opp_link _ F) as [F' V']. split. exact F'. rewrite V', V, opp_IZR. ring.
+  - destruct (of_Z_link n) as [F V]. { lia. } rewrite rnd64_int in V by lia. split; assumption.
+Qed.
+
+Lemma ltb0_link f : fin f -> PrimFloat.ltb f 0 = Rlt_bool (FR f) 0.
+Proof.
+  intros Hf. rewrite FP.ltb_equiv, Bltb_correct.
+  - rewrite Prim2B_zero. reflexivity.
+  - exact Hf.
+  - rewrite Prim2B_zero. reflexivity.
+Qed.
+
+Lemma abs_link f : fin f ->
+  let g := if PrimFloat.ltb f 0 then (- f)%float else f in fin g /\ FR g = Rabs (FR f).
+Proof.
+  intros Hf. cbv zeta. rewrite (ltb0_link f Hf).
+  destruct (Rlt_bool_spec (FR f) 0) as [N|N].
+  - destruct (opp_link f Hf) as [F V]. split. exact F. rewrite V, Rabs_left; lra.
+  - split. exact Hf. rewrite Rabs_pos_eq; lra.
+Qed.
+
+Lemma FR_c16 : FR 16%float = 16. Proof. fr_const. pow_const. lra. Qed.
+Lemma fin_c16 : fin 16%float. Proof. unfold fin. rewrite <- fin_f64. reflexivity. Qed.
+
+(* the executable jitter step IS the real-number model *)
+Lemma jitter_link j d rate sdiff : jit_range d rate sdiff ->
+  fin j -> 0 <= FR j <= 18446744073709551616 ->
+  fin (jitter_kernel j d rate sdiff) /\ FR (jitter_kernel j d rate sdiff) = jitR (FR j) d rate sdiff.
+Proof.
+  intros Hrg Fj Hj. assert (Hrg' := Hrg). destruct Hrg' as (Hd & Hr & He & Hs).
+  destruct (jit_analysis (FR j) d rate sdiff Hrg Hj (rnd64_FR j)) as (B1 & B2 & B3 & B4 & B5 & _).
+  cbv zeta in B1.
+  destruct (prod_link d rate Hd Hr) as [FP VP].
+  destruct (of_Z_link_signed sdiff) as [FS VS]. { lia. }
+  unfold jitter_kernel. cbv zeta.
+  set (Pf := (seconds_f d * f64_of_Z rate)%float) in *.
+  destruct (sub_link Pf (f64_of_Z sdiff) 70 FP FS) as [F1 V1].
+  { lia. } { rewrite VP, VS, bpow70. apply Rle_trans with (1 := B1). lra. }
+  rewrite VP, VS in V1. fold (jD d rate sdiff) in V1.
+  set (D0 := (Pf - f64_of_Z sdiff)%float) in *.
+  destruct (abs_link D0 F1) as [F2 V2]. cbv zeta in F2, V2. rewrite V1 in V2.
+  set (Da := if PrimFloat.ltb D0 0 then (- D0)%float else D0) in *.
+  destruct (sub_link Da j 70 F2 Fj) as [F3 V3].
+  { lia. } { rewrite V2, bpow70. apply Rle_trans with (1 := B3). lra. }
+  rewrite V2 in V3. fold (jE (FR j) d rate sdiff) in V3.
+  destruct (div_link (Da - j)%float 16%float 70 F3) as [F4 V4].
+  { rewrite FR_c16. lra. } { lia. }
+  { rewrite V3, FR_c16, bpow70. apply Rle_trans with (1 := B4). lra. }
+  rewrite V3, FR_c16 in V4. fold (jQ (FR j) d rate sdiff) in V4.
+  destruct (add_link j ((Da - j) / 16)%float 70 Fj F4) as [F5 V5].
+  { lia. } { rewrite V4, bpow70. apply Rle_trans with (1 := B5). lra. }
+  rewrite V4 in V5. fold (jitR (FR j) d rate sdiff) in V5.
+  split; assumption.
+Qed.
+
+(* C06 jitter step, executable kernel: finite, non-negative, bounded (an invariant: the result
+   satisfies the hypotheses on j again), and within 2^-52 (y + |sdiff| + J) + 2^-1072 of the exact
+   rational step, y = d*rate/10^9 *)
+Theorem jitter_kernel_step j d rate sdiff :
+  (0 <= d <= MaxDur)%Z -> (0 <= rate < 4294967296)%Z ->
+  (d * rate / 1000000000 < 4611686018427387904)%Z -> (-2147483648 <= sdiff <= 2147483647)%Z ->
+  fin j -> 0 <= FR j <= 18446744073709551616 ->
+  let J' := jitter_kernel j d rate sdiff in
+  fin J' /\ 0 <= FR J' <= 18446744073709551616 /\
+  Rabs (FR J' - (FR j + (Rabs (IZR d * IZR rate / 1000000000 - IZR sdiff) - FR j) / 16))
+    <= / 4503599627370496 * (IZR d * IZR rate / 1000000000 + Rabs (IZR sdiff) + FR j) + bpow radix2 (-1072).
+Proof.
+  intros Hd Hr He Hs Fj Hj. cbv zeta.
+  assert (Hrg : jit_range d rate sdiff) by (unfold jit_range, MaxDur in *; repeat split; lia).
+  destruct (jitter_link j d rate sdiff Hrg Fj Hj) as [F V].
+  destruct (jit_analysis (FR j) d rate sdiff Hrg Hj (rnd64_FR j)) as (_ & _ & _ & _ & _ & I & A).
+  cbv zeta in A. rewrite V. split; [exact F|]. split; [exact I|].
+  unfold jit_exact in A.
+  replace (bpow radix2 (-1072)) with (4 * eta). exact A.
+  unfold eta. change (-1072)%Z with (2 + -1074)%Z. rewrite bpow_plus. change (bpow radix2 2) with 4. ring.
+Qed.
+
+(* the accumulator starts at 0.0, which satisfies the invariant *)
+Lemma jitter_init_ok : fin 0%float /\ FR 0%float = 0.
+Proof. split. unfold fin. rewrite <- fin_f64. reflexivity. fr_const. reflexivity. Qed.
+
+(* uint32(stream.jitter) on the invariant range below 2^63: floor, modulo 2^32 *)
+Theorem jitter_out_floor j : fin j -> 0 <= FR j < 9223372036854775808 ->
+  jitter_out j = (Zfloor (FR j) mod 4294967296)%Z.
+Proof. intros F H. unfold jitter_out. now apply to_u32_link63. Qed.
+
+Example jitter_kernel_nonvacuous :
+  jitter_out (jitter_kernel 0%float 20000000 90000 160) = 102%Z /\
+  jitter_out (jitter_kernel (jitter_kernel 0%float 20000000 90000 160) 21000000 90000 1800) = 101%Z.
+Proof. split; vm_compute; reflexivity. Qed.
+
+(* the invariant along any sequence of in-range steps from the initial accumulator 0.0:
+   every reachable jitter accumulator is finite, non-negative and at most 2^64 *)
+Fixpoint jitter_fold (j : Coq.Floats.PrimFloat.float) (l : list (Z * Z * Z)) : Coq.Floats.PrimFloat.float :=
+  match l with
+  | nil => j
+  | cons (d, rate, sdiff) tl => jitter_fold (jitter_kernel j d rate sdiff) tl
+  end.
+
+Definition jit_step_ok (x : Z * Z * Z) : Prop :=
+  let '(d, rate, sdiff) := x in
+  (0 <= d <= MaxDur)%Z /\ (0 <= rate < 4294967296)%Z /\
+  (d * rate / 1000000000 < 4611686018427387904)%Z /\ (-2147483648 <= sdiff <= 2147483647)%Z.
+
+Theorem jitter_fold_invariant l : List.Forall jit_step_ok l ->
+  fin (jitter_fold 0%float l) /\ 0 <= FR (jitter_fold 0%float l) <= 18446744073709551616.
+Proof.
+  assert (G : forall l j, List.Forall jit_step_ok l -> fin j -> 0 <= FR j <= 18446744073709551616 ->
+            fin (jitter_fold j l) /\ 0 <= FR (jitter_fold j l) <= 18446744073709551616).
+  { clear l. induction l as [|[[d rate] sdiff] tl IH]; intros j HF Fj Hj.
+    - simpl. split; assumption.
+    - inversion HF as [|x l' Hx Htl]; subst. destruct Hx as (Hd & Hr & He & Hs).
+      destruct (jitter_kernel_step j d rate sdiff Hd Hr He Hs Fj Hj) as (F' & I' & _).
+      simpl. apply IH; assumption. }
+  intros HF. destruct jitter_init_ok as [F0 V0]. apply G; auto. rewrite V0. lra.
+Qed.
+
+(* the initial accumulator of newReceiverStream (named so that statement files need not open float_scope) *)
+Definition jitter_zero : Coq.Floats.PrimFloat.float := 0%float.
